@@ -124,6 +124,129 @@ func (g *gen40) next(r *run40, step int) string {
 			return fmt.Sprintf("confirm %d %d %d", id, ch.latest, g.seqFor(r, ch.owner))
 		}
 	}
+	// --- targeted moves -------------------------------------------------------
+	stateSeq := func(x int) uint32 { sid, _ := r.sidOf(x); return sid.Seqid }
+	// (a) false retry of the same operation type on a SIBLING file of the owner: the
+	// owner's last request was CLOSE / OPEN_DOWNGRADE / OPEN_CONFIRM; reuse its seqid
+	// on another open file, preferably one whose state ID is at the same seqid
+	if rnd.Chance(1, 7) {
+		var cands [][2]int // (chain index, exact?)
+		for i, ch := range opens {
+			last := r.lastCons[ch.owner]
+			if last == nil || ch.closed || last.file == ch.file || (last.kind != kClose && last.kind != kDown && last.kind != kConfirm) {
+				continue
+			}
+			exact := 0
+			if stateSeq(ch.latest) == last.argSid.Seqid {
+				exact = 1
+			}
+			cands = append(cands, [2]int{i, exact})
+		}
+		var pick []int
+		for _, cnd := range cands {
+			if cnd[1] == 1 {
+				pick = append(pick, cnd[0])
+			}
+		}
+		if len(pick) == 0 || rnd.Chance(1, 4) {
+			pick = pick[:0]
+			for _, cnd := range cands {
+				pick = append(pick, cnd[0])
+			}
+		}
+		if len(pick) > 0 {
+			ch := opens[pick[rnd.Intn(len(pick))]]
+			last := r.lastCons[ch.owner]
+			g.nextID++
+			switch last.kind {
+			case kClose:
+				return fmt.Sprintf("close %d %d %d", id, ch.latest, last.seq)
+			case kDown:
+				return fmt.Sprintf("down %d %d %d %d", id, ch.latest, last.seq, rnd.Intn(3))
+			default:
+				return fmt.Sprintf("confirm %d %d %d", id, ch.latest, last.seq)
+			}
+		}
+	}
+	// (b) bring the state IDs of two open files of one owner to the same seqid
+	// (OPEN again = upgrade, or OPEN_DOWNGRADE, on the one that is behind)
+	if rnd.Chance(1, 8) {
+		for i, a := range opens {
+			for j, b := range opens {
+				if i == j || a.owner != b.owner || a.closed || b.closed || !r.confirmed[a.owner] || stateSeq(a.latest) >= stateSeq(b.latest) {
+					continue
+				}
+				g.nextID++
+				if rnd.Chance(1, 2) {
+					return fmt.Sprintf("down %d %d %d %d", id, a.latest, g.seqFor(r, a.owner), 2)
+				}
+				var c, o int
+				for k, v := range r.owners {
+					if v == a.owner {
+						fmt.Sscanf(k, "%d/%d", &c, &o)
+					}
+				}
+				return fmt.Sprintf("open %d %d %d %d %d %d %d", id, c, o, g.seqFor(r, a.owner), a.file, 2, 0)
+			}
+		}
+	}
+	// (c) LOCK with open_to_lock_owner4 naming an EXISTING lock-owner of the same
+	// open-owner (nested lock-owner transaction): on another file with the next,
+	// the cached or an out-of-order lock seqid, or on the file it already holds
+	if rnd.Chance(1, 7) {
+		type lockOwner struct {
+			k       int
+			owner   int
+			lastSeq uint32
+		}
+		var los []lockOwner
+		for k := 0; k < g.nextID; k++ {
+			q, ok := r.reqs[k]
+			if !ok || q.kind != kLock || q.lockTx || q.lockOwn != q.id || q.owner < 0 {
+				continue
+			}
+			c := q.firstReturned()
+			if c == nil || c.res.Status != 0 {
+				continue
+			}
+			lo := lockOwner{k: k, owner: q.owner, lastSeq: q.lockSeq}
+			for j := k + 1; j < g.nextID; j++ {
+				if p, ok := r.reqs[j]; ok && p.lockOwn == k && (p.kind == kLock || p.kind == kLocku) {
+					if pc := p.firstReturned(); pc != nil && !advancingExcluded[opSt(pc.res)] {
+						if p.lockTx {
+							lo.lastSeq = p.seq
+						} else {
+							lo.lastSeq = p.lockSeq
+						}
+					}
+				}
+			}
+			los = append(los, lo)
+		}
+		if len(los) > 0 {
+			lo := los[rnd.Intn(len(los))]
+			var cands []chain40
+			for _, ch := range opens {
+				if ch.owner == lo.owner && !ch.closed {
+					cands = append(cands, ch)
+				}
+			}
+			if len(cands) > 0 {
+				ch := cands[rnd.Intn(len(cands))]
+				lq := lo.lastSeq + 1
+				switch rnd.Pick(55, 15, 15, 15) {
+				case 1:
+					lq = lo.lastSeq
+				case 2:
+					lq = lo.lastSeq + 5
+				case 3:
+					lq = lo.lastSeq - 1
+				}
+				g.nextID++
+				return fmt.Sprintf("lock %d %d %d %d %d %d %d lo=%d", id, ch.latest, g.seqFor(r, ch.owner), lq, rnd.Intn(20), rnd.Intn(10), rnd.Intn(2), lo.k)
+			}
+		}
+	}
 	choice := rnd.Pick(18, 30, 8, 24, 6+10*len(parked), 4)
 	switch choice {
 	case 0:
